@@ -137,6 +137,16 @@ Theorem C16_centre_spec_gab :
 Proof. exact (fun n D w shell c HD Hw => centre_spec_gab n D w Hw shell c). Qed.
 Print Assumptions C16_centre_spec_gab.
 
+(* the shell used by _gs_next -- neighs after `for _ in range(1, gabriel_shell)` -- is the set
+   of points reachable from c by a walk of 1 .. max(1, gabriel_shell) Gabriel edges
+   ([gpath n G k c b]: a walk of k edges from c to b in G through points < n) *)
+Theorem C16_shell_is_graph_ball :
+  forall n D shell c b, length D = n -> c < n ->
+    (nth b (shell_set (gabriel D) shell c) false = true <->
+     exists k, 1 <= k <= Nat.max 1 shell /\ gpath n (gabriel D) k c b).
+Proof. exact (fun n D shell c b HL Hc => shell_set_spec n (gabriel D) (gabriel_sq n D HL) shell c b Hc). Qed.
+Print Assumptions C16_shell_is_graph_ball.
+
 (* a point of maximal weight is always a centre *)
 Theorem C16_max_weight_is_centre :
   forall n D w cut shell R c, sq_mat n D -> length w = n -> c < n ->
@@ -172,6 +182,21 @@ Proof.
     conj (fit_cut_remap f Hf n D w cut HD Hw) (fit_gab_remap f Hf n D w shell HD Hw)).
 Qed.
 Print Assumptions C16_weight_remap.
+
+(* Order independence, the part that concerns the algorithm (PARTIAL with respect to the planned
+   C16_permutation: "for a permutation pi of the points, without distance ties among admissible
+   candidates, labels (pi . input) = pi . labels input").  Proved: the outer loop may visit
+   the points in ANY order that covers them all -- the labels are those of `for i in range(n)`.
+   Missing for the full statement: equivariance of next_cut / next_gab / gabriel under renaming
+   the points (rows and columns of D, w, cut permuted), which holds exactly when the index
+   tie-break of C16_next_spec_* never fires; that part is sampled (all n! orders, n <= 7). *)
+Theorem C16_permutation_partial :
+  forall n D w cut shell order, sq_mat n D -> length w = n ->
+    (forall i, In i order -> i < n) -> (forall i, i < n -> In i order) ->
+    fold_left (fit_step n (next_cut D w cut)) order (Some (repeat None n)) = fit_cut D w cut /\
+    fold_left (fit_step n (next_gab D w shell)) order (Some (repeat None n)) = fit_gab D w shell.
+Proof. exact fit_any_order_both. Qed.
+Print Assumptions C16_permutation_partial.
 
 (* non-vacuity: six points on a line at 0,1,2,10,11,12 with weights 1,5,3,2,9,4 (squared
    distances); cut-off 5 gives the basins {0,1,2} -> 1 and {3,4,5} -> 4, a huge cut-off
